@@ -529,6 +529,9 @@ def r02_7(ctx, prog, crate):
                         cell = (bi, S.local(pr["l"]))
             ok = cell is not None and cell[1][0] == "discr" and cell[1][1][0] == "site" and cell[1][1][1] == "time::timer::Timer::kind" and \
                 cell[1][1][3] and cell[1][1][3][0] in (("arg", 1, ()), ("sptr", (1, ())))
+            if not ok:
+                from .common import slot_selected_by_match
+                ok = slot_selected_by_match(b, c.args[0], "time::timer::Timer::kind")
             ctx.check(ok, "R02.7", [b.path.rsplit("::", 1)[-1], "cached-per-timer-kind"],
                       "`%s` caches its measurement in %s: expected a per-kind array of cells read at `self.kind() as usize` (a process-wide cell lets one clock's measurement be "
                       "subtracted from samples timed by the other)" % (b.path, "a cell indexed by " + show(cell[1]) if cell else "a single static cell"), c.line())
